@@ -124,7 +124,8 @@ def _maybe_fallback(out, repo, c, variant, concrete, tree, timeout_ms):
     for f in r["failures"]:
         lab = f["label"]
         name = f"{c.qualname}:{lab}" if lab.startswith(("frame:", "raises:")) else f"{c.qualname}:post:{lab}"
-        out["results"].append({"name": name, "kind": "post", "tags": sorted(c.tags_for(lab.replace("frame:", "")) | c.all_props()),
+        out["results"].append({"name": name, "kind": "post", "tags": sorted(c.tags_for(lab.replace("frame:", "")) | c.all_props() | (
+                                   {"C13"} if lab.startswith("frame:") and c.qualname.startswith("nasim.envs.") else set())),
                                "status": "refuted", "backend": "run-time contract on the real code", "seconds": 0.0,
                                "reason": "clause false for a concrete input/output pair of the real function",
                                "pathlen": 0, "cex": f["input"], "goal": lab})
